@@ -100,7 +100,7 @@ class FuncSpec:
                  raises=None, modifies=None, modifies_args=(), ghost_update=None, pure=False, ret=None,
                  returns_self=False, loops=None, lemmas=None, logical=None, inline=False, may_fail=False,
                  assume_only=False, entry_inv=True, exit_inv=True, notes='', src_cls=None, implements=None,
-                 local_types=None, exc_inv=False):
+                 local_types=None, exc_inv=False, src_name=None):
         self.key = key
         self.file = file
         self.params = dict(params or {})
@@ -128,6 +128,7 @@ class FuncSpec:
         self.implements = implements
         self.local_types = dict(local_types or {})
         self.exc_inv = exc_inv
+        self.src_name = src_name
 
     @property
     def cls_name(self):
@@ -135,7 +136,7 @@ class FuncSpec:
 
     @property
     def func_name(self):
-        return self.key.split('.')[-1]
+        return self.src_name or self.key.split('.')[-1].split('#')[0]
 
 
 def fn(key, file=None, **kw):
